@@ -306,6 +306,10 @@ func (m *mutator) hostileValue(key string, tok int) (string, string) {
 			return fs[0], "filter:" + fs[0]
 		}
 		return "[" + strings.Join(fs, " ") + "]", fmt.Sprintf("filters:%d", k)
+	case "N":
+		alts := []int64{10000, 10001, 65536, 1 << 20, 16000000, 1<<24 - 1, 1 << 24}
+		v := alts[m.pick("objstmN", len(alts))]
+		return strconv.FormatInt(v, 10), fmt.Sprintf("int:%d", v)
 	case "W":
 		alts := []string{"[0 0 0]", "[8 8 8]", "[1 9 1]", "[-1 2 1]", "[1 2]", "[1 0 0]", "[0 1 0]", "[4 4 4]", "[1 2 1 1]"}
 		a := alts[m.pick("w", len(alts))]
@@ -339,7 +343,7 @@ func (m *mutator) edit() bool {
 	if len(ts) == 0 {
 		return false
 	}
-	kind := []int{0, 0, 0, 1, 1, 1, 2, 2, 2, 2, 2, 2, 3, 4, 5, 6, 7, 8, 8, 9, 9, 10, 10, 11, 12, 12, 13, 13, 14, 15, 15, 16, 16, 17, 17}[m.pick("edit", 35)]
+	kind := []int{0, 0, 0, 1, 1, 1, 2, 2, 2, 2, 2, 2, 3, 4, 5, 6, 7, 8, 8, 9, 9, 10, 10, 11, 12, 12, 13, 13, 14, 15, 15, 16, 16, 17, 17, 18}[m.pick("edit", 36)]
 	switch kind {
 	case 0: // integer operand -> hostile constant
 		var idx []int
@@ -536,6 +540,14 @@ func (m *mutator) edit() bool {
 		m.forceRepair, m.appendRepair = true, true
 	case 17: // /FirstChar, /LastChar, /Widths of a simple font made inconsistent
 		out, label := tamperWidths(m.data, m.rnd)
+		if out == nil {
+			return false
+		}
+		m.data = out
+		m.edits = append(m.edits, label)
+		m.forceRepair = true
+	case 18: // a page's content replaced by a deeply nested inline image header
+		out, label := deepContent(m.data, m.rnd)
 		if out == nil {
 			return false
 		}
